@@ -428,6 +428,8 @@ func (p *Path) call(caller *frame, callpos token.Pos, fn Value, args []Value) Va
 		return p.callSSA(caller, callpos, fn.Fn, args, fn.Env)
 	case *ssa.Builtin:
 		return p.callBuiltin(caller, callpos, fn, args)
+	case NativeFn:
+		return fn(args)
 	}
 	panic(fmt.Sprintf("cannot call %T", fn))
 }
